@@ -792,6 +792,18 @@ func (ex *Exec) havocSpecLoc(env *SpecEnv, st *State, e ast.Expr) {
 					st.setHeap(n, Fresh("ghostarr."+id.Name, ArraySort(IntSort, IntSort)))
 				}
 				return
+			case "elemfamily":
+				// elemfamily(T): any element of any backing array with element type T may change
+				t := env.resolveType(call.Args[0])
+				if t == nil {
+					specErr("elemfamily: unknown type %s", exprStr(call.Args[0]))
+				}
+				st.logWrite(&WriteRec{Kind: "elemfamily", Key: typeKey(t)})
+				names, sorts := elemFamilies(t)
+				for i, n := range names {
+					st.setHeap(n, Fresh("elemfam", sorts[i]))
+				}
+				return
 			case "mapfamily":
 				// mapfamily(T): every map of the named map type may change
 				t := env.resolveType(call.Args[0])
@@ -821,9 +833,7 @@ func (ex *Exec) havocSpecLoc(env *SpecEnv, st *State, e ast.Expr) {
 		}
 	}
 	l := env.loc(e)
-	if l.Kind == LCell {
-		specErr("modifies clause names a local: %s", exprStr(e))
-	}
+	// (a location inside a local of the caller is possible: the callee got its address)
 	nv := freshValue("mod", l.Ty)
 	st.store(l, nv)
 	st.assume(st.wf(nv))
